@@ -536,6 +536,8 @@ def decode_index(j):
             return Ellipsis
         if "a" in j:
             return np.array(j["a"], dtype=bool if j.get("b") else np.intp)
+        if "f" in j:
+            return np.array(j["f"], dtype=float)
     return j
 
 
